@@ -132,9 +132,9 @@ type c18Out struct {
 }
 
 // c18Exec runs the program once.
-func c18Exec(prog *pgProgram, k c02Cfg, gated bool, permSeed int64) (*c18Out, error) {
+func c18Exec(prog *pgProgram, k c02Cfg, gated bool, permSeed int64, slow bool) (*c18Out, error) {
 	hub := newPgHub()
-	o := pgInstOpt{reqServer: k.reqServer, alloc: k.alloc, maxTx: k.maxTx, hub: hub}
+	o := pgInstOpt{reqServer: k.reqServer, alloc: k.alloc, maxTx: k.maxTx, hub: hub, slowRead: slow}
 	var g *pgGate
 	dir := ""
 	if k.reqServer {
@@ -283,6 +283,12 @@ func runC18(c *Ctx) {
 	if c.Thorough() {
 		nProg = 2000
 	}
+	child, err := startChild("c18", 6000000)
+	if err != nil {
+		c.Diag("c18 child: %v", err)
+		return
+	}
+	defer func() { child.kill() }()
 	for pi := 0; pi < nProg; pi++ {
 		seed := c.Rng.Int63()
 		depth := 8 + int(seed>>8)%23
@@ -292,80 +298,33 @@ func runC18(c *Ctx) {
 					if serial && (pi+int(maxTx>>15))%3 != 0 { // serial runs are a third of the pipelined ones
 						continue
 					}
-					gen := func() *pgProgram {
-						return pgGenProgram(rand.New(rand.NewSource(seed)), pgGenOpt{reqServer: reqServer, stable: true, serial: serial, depth: depth, maxTx: maxTx, bigIO: maxTx >= 65536 || pi%2 == 0})
-					}
-					kOff, kOn := c02Cfg{reqServer, false, maxTx}, c02Cfg{reqServer, true, maxTx}
-					p0, p1 := gen(), gen()
-					off, err := c18Exec(p0, kOff, !serial, seed)
-					if err != nil {
-						c.Diag("c18 setup: %v", err)
-						return
-					}
-					on, err := c18Exec(p1, kOn, !serial, seed)
-					if err != nil {
-						c.Diag("c18 setup: %v", err)
-						return
-					}
-					n := c.Case("diff", kvs("srv", kOff.name()), kvx("maxtx", uint64(maxTx)), kvb("serial", serial), kvx("seed", uint64(seed)), kvi("depth", depth))
-					ok, why := c18Content(p0, off, maxTx, "alloc=off")
-					if ok {
-						ok, why = c18Content(p1, on, maxTx, "alloc=on")
-					}
-					if ok {
-						for i := range p0.reqs {
-							if !bytes.Equal(c18Norm(off.res.resps[i], !reqServer), c18Norm(on.res.resps[i], !reqServer)) {
-								ok, why = false, fmt.Sprintf("alloc-changes-responses: the answer to request %d (%s) is %s of %d bytes without and %s of %d bytes with the allocator", i, p0.reqs[i].op,
-									pgTypeName(off.res.resps[i].Typ), len(off.res.resps[i].Raw), pgTypeName(on.res.resps[i].Typ), len(on.res.resps[i].Raw))
-								break
-							}
+					big := maxTx >= 65536 || pi%2 == 0
+					slow := !serial && pi%2 == 1
+					req := fmt.Sprintf("diff rs=%v maxtx=%d serial=%v seed=%d depth=%d big=%v slow=%v", reqServer, maxTx, serial, seed, depth, big, slow)
+					n := c.Case("diff", kvs("srv", c02Cfg{reqServer: reqServer}.name()), kvx("maxtx", uint64(maxTx)), kvb("serial", serial), kvb("slowreader", slow), kvx("seed", uint64(seed)), kvi("depth", depth))
+					ans, alive := child.ask(req, 120*time.Second)
+					f := strings.SplitN(ans, "|", 4)
+					if !alive || len(f) != 4 {
+						// the server panicked (or hung): run the case again in a fresh process that keeps stderr, to name the panic
+						child.kill()
+						_, _, panicLine := c18Spawn(req)
+						c.Oracle(n, false, "server-crash: the process serving this case died: "+panicLine)
+						c.Stat("cases_crashed")
+						if child, err = startChild("c18", 6000000); err != nil {
+							c.Diag("c18 child: %v", err)
+							return
 						}
+						continue
 					}
-					switch {
-					case !ok:
-					case !on.hasAlloc || off.hasAlloc:
-						ok, why = false, "harness-alloc-hook: allocator presence does not follow the option"
-					case on.dupMax > 0:
-						ok, why = false, fmt.Sprintf("alloc-page-lent-twice: %d pages were in two lists at once", on.dupMax)
-					case on.usedQ > 1:
-						ok, why = false, fmt.Sprintf("alloc-pages-in-use: %d pages still marked in use after the last response", on.usedQ)
-					case !on.down || !off.down:
-						ok, why = false, "server-hang: Serve did not return within 5 s of closing the connection"
-					case on.usedEnd != 0 || on.availEnd != 0:
-						ok, why = false, fmt.Sprintf("alloc-not-freed: used=%d available=%d after Serve returned", on.usedEnd, on.availEnd)
-					}
-					c.Oracle(n, ok, why)
-					files, nData, nWrite, nRW := map[int]bool{}, 0, 0, 0
-					for i, rq := range p0.reqs {
-						if rq.typ == fxpRead || rq.typ == fxpWrite {
-							nRW++
-						}
-						if i < len(off.res.resps) && off.res.resps[i].Typ == fxpData && rq.slot >= 0 {
-							nData++
-							files[p0.slots[rq.slot].fileNo] = true
-							switch d, _ := off.res.resps[i].data(); {
-							case len(d) >= 200000:
-								c.Stat("data_200000+")
-							case len(d) >= 32768:
-								c.Stat("data_32768+")
-							default:
-								c.Stat("data_small")
-							}
-						}
-						if rq.typ == fxpWrite && rq.slot >= 0 {
-							nWrite++
-						}
-						c.Stat("op_" + rq.op)
-					}
-					if nRW >= 3 && (len(files) >= 2 || (nData >= 1 && nWrite >= 1)) {
+					c.Oracle(n, f[0] == "ok", f[1])
+					if f[2] == "nt" {
 						c.NT(n)
 					}
-					c.Stat("cases_" + kOff.name())
-					if off.res.timedOut || on.res.timedOut {
-						c.Stat("timeouts")
-					}
-					if on.res.mispredicts+off.res.mispredicts > 0 {
-						c.Stat("runs_on_idle_rule")
+					for _, st := range strings.Split(f[3], ";") {
+						if i := strings.IndexByte(st, ':'); i > 0 {
+							k, _ := strconv.Atoi(st[i+1:])
+							c.StatN(st[:i], k)
+						}
 					}
 				}
 			}
@@ -396,6 +355,99 @@ func runC18(c *Ctx) {
 			}
 		}
 	}
+}
+
+// c18Diff (child process): one case = the program run with the allocator off and on. Answer: ok|reason|nt|stat:count,...
+func c18Diff(kv map[string]string) string {
+	reqServer, serial := kv["rs"] == "true", kv["serial"] == "true"
+	mt, _ := strconv.ParseUint(kv["maxtx"], 10, 32)
+	maxTx := uint32(mt)
+	seed, _ := strconv.ParseInt(kv["seed"], 10, 64)
+	depth, _ := strconv.Atoi(kv["depth"])
+	stats := map[string]int{}
+	gen := func() *pgProgram {
+		return pgGenProgram(rand.New(rand.NewSource(seed)), pgGenOpt{reqServer: reqServer, stable: true, serial: serial, depth: depth, maxTx: maxTx, bigIO: kv["big"] == "true"})
+	}
+	kOff, kOn := c02Cfg{reqServer, false, maxTx}, c02Cfg{reqServer, true, maxTx}
+	p0, p1 := gen(), gen()
+	slow := kv["slow"] == "true"
+	off, err := c18Exec(p0, kOff, !serial, seed, slow)
+	if err != nil {
+		return "FAIL|harness-setup: " + err.Error() + "|-|"
+	}
+	on, err := c18Exec(p1, kOn, !serial, seed, slow)
+	if err != nil {
+		return "FAIL|harness-setup: " + err.Error() + "|-|"
+	}
+	ok, why := c18Content(p0, off, maxTx, "alloc=off")
+	if ok {
+		ok, why = c18Content(p1, on, maxTx, "alloc=on")
+	}
+	if ok {
+		for i := range p0.reqs {
+			if !bytes.Equal(c18Norm(off.res.resps[i], !reqServer), c18Norm(on.res.resps[i], !reqServer)) {
+				ok, why = false, fmt.Sprintf("alloc-changes-responses: the answer to request %d (%s) is %s of %d bytes without and %s of %d bytes with the allocator", i, p0.reqs[i].op,
+					pgTypeName(off.res.resps[i].Typ), len(off.res.resps[i].Raw), pgTypeName(on.res.resps[i].Typ), len(on.res.resps[i].Raw))
+				break
+			}
+		}
+	}
+	switch {
+	case !ok:
+	case !on.hasAlloc || off.hasAlloc:
+		ok, why = false, "harness-alloc-hook: allocator presence does not follow the option"
+	case on.dupMax > 0:
+		ok, why = false, fmt.Sprintf("alloc-page-lent-twice: %d pages were in two lists at once", on.dupMax)
+	case on.usedQ > 1:
+		ok, why = false, fmt.Sprintf("alloc-pages-in-use: %d pages still marked in use after the last response", on.usedQ)
+	case !on.down || !off.down:
+		ok, why = false, "server-hang: Serve did not return within 5 s of closing the connection"
+	case on.usedEnd != 0 || on.availEnd != 0:
+		ok, why = false, fmt.Sprintf("alloc-not-freed: used=%d available=%d after Serve returned", on.usedEnd, on.availEnd)
+	}
+	files, nData, nWrite, nRW := map[int]bool{}, 0, 0, 0
+	for i, rq := range p0.reqs {
+		if rq.typ == fxpRead || rq.typ == fxpWrite {
+			nRW++
+		}
+		if i < len(off.res.resps) && off.res.resps[i].Typ == fxpData && rq.slot >= 0 {
+			nData++
+			files[p0.slots[rq.slot].fileNo] = true
+			switch d, _ := off.res.resps[i].data(); {
+			case len(d) >= 200000:
+				stats["data_200000+"]++
+			case len(d) >= 32768:
+				stats["data_32768+"]++
+			default:
+				stats["data_small"]++
+			}
+		}
+		if rq.typ == fxpWrite && rq.slot >= 0 {
+			nWrite++
+		}
+		stats["op_"+rq.op]++
+	}
+	nt := "-"
+	if nRW >= 3 && (len(files) >= 2 || (nData >= 1 && nWrite >= 1)) {
+		nt = "nt"
+	}
+	stats["cases_"+kOff.name()]++
+	if off.res.timedOut || on.res.timedOut {
+		stats["timeouts"]++
+	}
+	if on.res.mispredicts+off.res.mispredicts > 0 {
+		stats["runs_on_idle_rule"]++
+	}
+	var sl []string
+	for k, v := range stats {
+		sl = append(sl, fmt.Sprintf("%s:%d", k, v))
+	}
+	sort.Strings(sl)
+	verdict := "ok"
+	if !ok {
+		verdict = "FAIL"
+	}
+	return verdict + "|" + strings.ReplaceAll(why, "|", "/") + "|" + nt + "|" + strings.Join(sl, ";")
 }
 
 // c18Spawn runs one request in a fresh child process; stderr is kept to name the panic.
@@ -432,6 +484,9 @@ func c18ChildHandle(req string) string {
 		if i := strings.IndexByte(f, '='); i > 0 {
 			kv[f[:i]] = f[i+1:]
 		}
+	}
+	if strings.HasPrefix(req, "diff ") {
+		return c18Diff(kv)
 	}
 	n, _ := strconv.Atoi(kv["n"])
 	o := pgInstOpt{reqServer: kv["rs"] == "true", alloc: kv["alloc"] == "true", maxTx: uint32(n)}
